@@ -352,6 +352,7 @@ pub fn c19_sweep(max_l: usize) -> Vec<Program> {
                         BufKind::Deque,
                         BufKind::NdView,
                         BufKind::NdStrided,
+                        BufKind::NdReversed,
                         BufKind::Sim,
                         BufKind::OwnedVec,
                     ] {
